@@ -840,6 +840,15 @@ Proof.
   reflexivity.
 Qed.
 
+(* F31: `self` is not the name of a process — the test reads is_self and whether the identifier is "" *)
+Lemma providers_not_self_rn ps : providers_not_self (map (rn_procdef r) ps) = providers_not_self ps.
+Proof.
+  unfold providers_not_self. induction ps as [|q ps IH]; cbn [map forallb]; [reflexivity|]. rewrite IH. f_equal.
+  cbn [rn_procdef pr_providers]. induction (pr_providers q) as [|n l IHl]; cbn [map forallb]; [reflexivity|].
+  rewrite IHl. f_equal. cbn [rn_name is_self ident]. f_equal. f_equal.
+  rewrite <- Hc0 at 1. apply (eqb_inj _ Hc).
+Qed.
+
 Definition rn_pn (p : list procdef * list name) : list procdef * list name := (map (rn_procdef r) (fst p), map rN (snd p)).
 Lemma prelim_procs_sim D ps assumed :
   prelim_procs (rD D) (map (rn_procdef r) ps) (map rN assumed) = tmap rn_pn (prelim_procs D ps assumed).
@@ -865,6 +874,7 @@ Proof.
   eapply sim_bind; [apply guard_sim | intros [] _].
   { f_equal. unfold kvmap. induction remaining as [|[k v] l IHl]; cbn [map existsb snd]; [reflexivity|]. now rewrite IHl. }
   eapply sim_bind; [apply guard_sim; apply procs_acyclic_rn | intros [] _].
+  eapply sim_bind; [apply guard_sim; apply providers_not_self_rn | intros [] _].
   reflexivity.
 Qed.
 Lemma ok_prelim_procs D ps assumed ps' assumed' : Forall okprocr ps -> oknamesr assumed ->
